@@ -386,8 +386,7 @@ class Collocator:
         try:
             processed = 0
             collocated_matches = self._collocate_matches(**kwargs)
-            for collocations, attributes in collocated_matches:
-                match = matches[processed]
+            for collocations, attributes, files in collocated_matches:
                 processed += 1
                 progress = 100 * processed / len(matches)
 
@@ -408,7 +407,7 @@ class Collocator:
                 # The user may want to bundle the collocations before writing
                 # them to disk, e.g. by their primaries.
                 save_cache = self._should_save_cache(
-                        bundle, current_bundle_tag, match,
+                        bundle, current_bundle_tag, files,
                         to_datetime(collocations.attrs["start_time"])
                 )
 
@@ -429,7 +428,7 @@ class Collocator:
                 cached_attributes.update(**attributes)
 
                 if bundle == "primary":
-                    current_bundle_tag = match[0].path
+                    current_bundle_tag = files[0].path
                 elif bundle == "daily":
                     current_bundle_tag = \
                         to_datetime(collocations.attrs["start_time"]).date()
@@ -564,7 +563,7 @@ class Collocator:
             if collocations is None:
                 self._debug("Found no collocations!")
                 # At least, give the process caller a progress update:
-                yield None, None
+                yield None, None, files
                 continue
 
             # Check whether the collocation data is compatible and was build
@@ -596,7 +595,7 @@ class Collocator:
                 for p, v in file.attr.items()
             }
 
-            yield collocations, attributes
+            yield collocations, attributes, files
 
 
     def collocate(
